@@ -84,6 +84,10 @@ SHAPES = {
                     ins("tw", Sel([Item(Col(0, "zqk2"))], [J("first", Der(sel(["zqk2"], "zqt2"), alias="dv1"))]))],
     "cte_hop": [ins("zqt1", sel(["zqk1"], "ta")),
                 ins("tw", With([("ct1", sel(["zqk2"], "zqt2"))], Sel([Item(Col(None, "zqk2"))], [J("first", Tab("ct1"))])))],
+    "two_derived_aliases": [ins("tw", Sel([Item(Col(0, "zqk1"))], [J("first", Der(sel(["zqk1"], "ta"), alias="zqd1"))])),
+                            ins("tv", Sel([Item(Col(0, "zqk2"))], [J("first", Der(sel(["zqk2"], "tb"), alias="zqd2"))]))],
+    "two_cte_names": [ins("tw", With([("zqc1", sel(["zqk1"], "ta"))], Sel([Item(Col(None, "zqk1"))], [J("first", Tab("zqc1"))]))),
+                      ins("tv", With([("zqc2", sel(["zqk2"], "tb"))], Sel([Item(Col(None, "zqk2"))], [J("first", Tab("zqc2"))])))],
     "union_hop": [ins("zqt1", SetOp("UNION ALL", [sel(["zqk1"], "ta"), sel(["cb"], "tb")])), ins("tw", sel(["zqk2"], "zqt2"))],
 }
 
@@ -98,7 +102,7 @@ class ChainOb(TemplateObligation):
     def body(self):
         from sqllineage.core.metadata.dummy import DummyMetaDataProvider
 
-        names = make_names(self.slots, ("t", "k"), self.length)
+        names = make_names(self.slots, ("t", "k", "d", "c"), self.length)
         edges, spec = [], Spec()
         session = []     # what a provider's session learned: (table, [column names in order])
         for st in self.sts:
